@@ -298,6 +298,9 @@ func (p *prov) call(cc *ssa.CallCommon, d int) string {
 		return "call(" + p.origin(cc.Value, d+1) + "." + cc.Method.Name() + ")(" + strings.Join(args, ", ") + ")"
 	}
 	if f := cc.StaticCallee(); f != nil {
+		if t, ok := p.accessor(f, args, d); ok {
+			return t
+		}
 		if len(f.TypeArgs()) > 0 && f.Origin() != nil {
 			return "call(" + fname(f.Origin()) + ")(" + strings.Join(args, ", ") + ")"
 		}
@@ -518,4 +521,108 @@ func (w *World) litsIn(fn *ssa.Function, named *types.Named) []*Lit {
 		}
 	})
 	return out
+}
+
+// accessor: a module-local function whose whole body is `return <path>` — loads and field selections starting at one of
+// its parameters, no call, no store, no branch — denotes that path. The term of a call of it is the path with the
+// parameter replaced by the argument's term, so `s.rebalanceDelay()` and `s.config.….RebalanceDelay` are one origin.
+func (p *prov) accessor(f *ssa.Function, args []string, d int) (string, bool) {
+	if p.w == nil || len(f.Params) != len(args) || d > 20 {
+		return "", false
+	}
+	ret := p.w.forwardingBody(f)
+	if ret == nil {
+		return "", false
+	}
+	q := &prov{w: p.w}
+	t := q.origin(ret.Results[0], d+1)
+	if strings.Contains(t, "φ") || strings.Contains(t, "free(") {
+		return "", false
+	}
+	// substitute the parameter tokens by the argument terms (one pass, so an argument term is never rewritten)
+	var b strings.Builder
+	for i := 0; i < len(t); {
+		matched := false
+		for k, prm := range f.Params {
+			tok := "param(" + prm.Name() + ")"
+			if k == 0 && f.Signature.Recv() != nil {
+				tok = "recv"
+			}
+			if strings.HasPrefix(t[i:], tok) {
+				// token boundaries
+				before := i == 0 || strings.ContainsRune("(, &*[-!", rune(t[i-1]))
+				j := i + len(tok)
+				after := j == len(t) || strings.ContainsRune(".),] [#", rune(t[j]))
+				if before && after {
+					b.WriteString(args[k])
+					i = j
+					matched = true
+					break
+				}
+			}
+		}
+		if !matched {
+			b.WriteByte(t[i])
+			i++
+		}
+	}
+	return b.String(), true
+}
+
+// forwardingBody: f is a module-local function whose single block only loads, selects fields, converts and makes
+// static calls, and returns one value — a pure accessor or a thin forwarding wrapper. Returns the return instruction.
+func (w *World) forwardingBody(f *ssa.Function) *ssa.Return {
+	if f == nil || !w.inModule(f) || len(f.Blocks) != 1 || len(f.Params) == 0 || len(f.FreeVars) > 0 {
+		return nil
+	}
+	var ret *ssa.Return
+	nCalls := 0
+	for _, in := range f.Blocks[0].Instrs {
+		switch x := in.(type) {
+		case *ssa.FieldAddr, *ssa.Field, *ssa.ChangeType, *ssa.Convert, *ssa.DebugRef, *ssa.MakeInterface:
+		case *ssa.UnOp:
+			if x.Op != token.MUL {
+				return nil
+			}
+		case *ssa.Call:
+			if x.Common().IsInvoke() || x.Common().StaticCallee() == nil {
+				return nil
+			}
+			nCalls++
+		case *ssa.Return:
+			ret = x
+		default:
+			return nil
+		}
+	}
+	if ret == nil || len(ret.Results) != 1 || nCalls > 1 {
+		return nil
+	}
+	return ret
+}
+
+// pureAccessor: f is a module-local function consisting of loads and field selections followed by the return of one
+// value (no call, store, branch, free variable). Returns that return instruction, or nil.
+func (w *World) pureAccessor(f *ssa.Function) *ssa.Return {
+	if f == nil || !w.inModule(f) || len(f.Blocks) != 1 || len(f.Params) == 0 || len(f.FreeVars) > 0 {
+		return nil
+	}
+	var ret *ssa.Return
+	for _, in := range f.Blocks[0].Instrs {
+		switch x := in.(type) {
+		case *ssa.FieldAddr, *ssa.Field, *ssa.ChangeType, *ssa.Convert, *ssa.DebugRef:
+		case *ssa.UnOp:
+			if x.Op != token.MUL {
+				return nil
+			}
+		case *ssa.Return:
+			ret = x
+		default:
+			return nil
+		}
+	}
+	if ret == nil || len(ret.Results) != 1 {
+		return nil
+	}
+	return ret
 }
